@@ -57,9 +57,15 @@ Definition ign_line (l : bytes) : option regex :=
 (* the built-in first pattern `\.goit/.*` *)
 Definition ign_builtin : regex := RCat (RLit (str ".goit/"%string)) (RStar RAny).
 
+(* an EMPTY line (zero bytes between two line feeds, or what is left once the
+   scanner has removed a trailing carriage return) is not an entry: it is
+   skipped (`if text == "" { continue }`).  As a pattern it would be
+   `(^|/)(?:)$`, which matches every directory target "d/".  A line of blanks
+   only is NOT skipped: Goit does not trim ignore lines. *)
 Fixpoint ign_lines (ls : list bytes) : option (list regex) :=
   match ls with
   | [] => Some []
+  | [] :: r => ign_lines r
   | l :: r =>
     match ign_line l, ign_lines r with
     | Some x, Some xs => Some (x :: xs)
